@@ -457,7 +457,7 @@ def inventory(ctx, rep):
             if r41 and all(i["ok"] for i in r41):
                 return "R4.1 evaluated decode_length's table for all 256 first bytes in both modes: this arithmetic never traps (a trap would drop every row for that byte and show up as a stalled decoder)"
             return None
-        if s["fn"] == "insim_core::duration::binrw_parse_duration" and s["kind"] == "assert" and s["what"] == "overflow":
+        if panics.is_or_helper_of(ctx.mir, s["fn"], "insim_core::duration::binrw_parse_duration", generic="SCALE") and s["kind"] == "assert" and s["what"] == "overflow":
             worst = 0
             for (t, sc) in inst:
                 r = absint.ty_range(t)
